@@ -323,6 +323,20 @@ def c03(ctx):
             continue
         if (cl == "L 0") != (sl == "sL 1"):
             ctx.S("mode 6531 local part decided against strict UTF-8 + the RFC 5321 grammar", op="L 6531 %s %s" % (hx(s), hx(gen.AT)), input=repr(s), impl=cl, spec=sl)
+    # the byte at *end must not take part: characters cut short at `end`, with a continuation byte right behind
+    cut = []
+    for ch in ("é", "№", "😀", "Ж", "中"):
+        e = ch.encode()
+        for k in range(1, len(e)):
+            for pre in (b"", b"a", b"a.", b'"'):
+                cut.append((pre + e[:k], e[k:] + b"@x\0"))
+                cut.append((pre + e[:k], b"\x80\0"))
+                cut.append((pre + e[:k], b"\xbf@\0"))
+    cops = ["L 6531 %s %s" % (hx(a), hx(b)) for a, b in cut]
+    cc = ctx.K("local6531-end", "default", cops, project=lambda op, ln: accept_bit(ln))
+    for (a, b), cl in zip(cut, cc):
+        if cl == "L 0":
+            ctx.S("mode 6531 accepts a local part that ends inside a multi-byte character (the byte at *end was read)", op="L 6531 %s %s" % (hx(a), hx(b)), input=repr(a), impl=cl)
     # pure ASCII: 6531 and 5321 decide identically
     asc = [s for s in strs if all(b < 128 for b in s)]
     c5 = ctx.K("local5321-ascii", "default", ["L 5321 %s %s" % (hx(s), hx(gen.AT)) for s in asc], project=lambda op, ln: accept_bit(ln))
@@ -359,7 +373,17 @@ def c04(ctx):
     for after in (b"x\0", b".\0", b"-\0"):
         ctx.K("domain-after", "default", ["D %s %s" % (hx(s), hx(after)) for s in sub])
     # mode 6531: the same rules on the A-label the IDN library produced
-    idn = [s.encode() for s in gen.IDN_SAMPLES] + strs[:3000:3]
+    idn = [s.encode() for s in gen.IDN_SAMPLES]
+    for base in [b"example.com", "почта.рф".encode(), b"a", b"a.b", b"xn--p1ai.xn--p1ai", "例え.テスト".encode(), b"a-b.c"]:
+        for tail in (b"", b".", b"..", b"...", "。".encode(), "。。".encode(), b". ", b".-"):
+            idn += [base + tail, b"." + base + tail, base.replace(b".", b"..") + tail]
+    idn += [s for s in strs if len(s) <= 5][:: (2 if ctx.tier == "quick" else 1)] + strs[:3000:3]
+    for n in (62, 63, 64, 65):
+        idn += [b"a" * n + b".com", b"x." + b"b" * n, ("é" * n + ".com").encode(), b"a" * n + b"-b.com"]
+    for total in range(250, 258):
+        d = (b"a" * 49 + b".") * 5
+        idn += [d + b"b" * (total - len(d)), d + b"b" * (total - len(d)) + b"."]
+    idn = list(dict.fromkeys(idn))
     ops = ["U 0 %s" % hx(s) for s in idn if s and 0 not in s]
     c, l = ctx.run("utf8domain", "default", ops)
     ctx.evals += len(ops)
@@ -739,7 +763,8 @@ RULES["C16"] = "distinct (mode, tld, address) triples passing basic_email_check;
 
 
 # ===================================================================== histories (C13, C19)
-H_ADDRS = [b"a@b.com", b"a@x.test", b"a@[1.2.3.4]", "ж@почта.рф".encode(), b"a@\xff.com", b'"a b"@b.ru', b"a@b", b"bad"]
+H_ADDRS = [b"a@b.com", b"a@x.test", b"a@[1.2.3.4]", "ж@почта.рф".encode(), b"a@\xff.com", b'"a b"@b.ru', b"a@b", b"bad",
+           b"a@b.co", b"a@x.museum", b"a@x.muse", b"a@x.info", b"a@x.inf", b'"a\tb"@b.com', b"a@ab--cd.com", b"a@x.active", b"a@x.ac", "ж@b.com".encode()]
 H_MASKS = [760, 8, 2046, 0]
 IDN_RCS = [-100, -101, -102] + list(range(-209, -199)) + list(range(-314, -299)) + [1, 12345, -1]
 
@@ -874,7 +899,7 @@ def check_histories(ctx, name, scripts, variant="default"):
 
 def c13(ctx):
     hg = HistGen(ctx.rng)
-    pool = ["r822", "r6531", "r7", "t0", "k8", "s", "m", "fi"] + ["e" + hx(a) for a in H_ADDRS[:5]]
+    pool = ["r822", "r5321", "r6531", "r7", "t0", "k8", "s", "m", "fi"] + ["e" + hx(a) for a in (H_ADDRS[0], H_ADDRS[8], H_ADDRS[3], H_ADDRS[4], H_ADDRS[13])]
     scripts = hg.exhaustive(3 if ctx.tier == "quick" else 4, pool)
     if ctx.tier != "quick":
         scripts = scripts[:: 2]
